@@ -22,7 +22,7 @@ theorem run_flush_ok (d : Dev) (h : d.failAt = none) :
 section chain
 variable {d : Dev} {f0 : FileH} {c0 : Nat} {chain : List Nat}
 
-theorem ChainDir.byteSrc (C : ChainDir d f0 c0 chain) {T : Nat} (hT : T = chain.length * d.fs.clusterSize) :
+theorem ChainCore.byteSrc (C : ChainCore d f0 c0 chain) {T : Nat} (hT : T = chain.length * d.fs.clusterSize) :
     ByteSrc d (chainS f0 chain d.fs.clusterSize) T (chainSrc d.fs chain) (chainRoom d.fs chain) := by
   have hcs := C.geo.cs_pos
   subst hT
@@ -70,7 +70,10 @@ theorem ChainDir.byteSrc (C : ChainDir d f0 c0 chain) {T : Nat} (hT : T = chain.
     have := C.cs32
     omega
 
-theorem dirFile_seekCur0 (C : ChainDir d f0 c0 chain) (o : Nat) (ho : o ≤ chain.length * d.fs.clusterSize) (d1 : Dev) :
+theorem ChainDir.byteSrc (C : ChainDir d f0 c0 chain) {T : Nat} (hT : T = chain.length * d.fs.clusterSize) :
+    ByteSrc d (chainS f0 chain d.fs.clusterSize) T (chainSrc d.fs chain) (chainRoom d.fs chain) := C.core.byteSrc hT
+
+theorem dirFile_seekCur0 (C : ChainCore d f0 c0 chain) (o : Nat) (ho : o ≤ chain.length * d.fs.clusterSize) (d1 : Dev) :
     Reads ((dirFile f0 chain d.fs.clusterSize o).seek (.cur 0)) d1 (o, dirFile f0 chain d.fs.clusterSize o) := by
   have hu := C.u32
   have hoff : (dirFile f0 chain d.fs.clusterSize o).offset = o := rfl
@@ -90,11 +93,11 @@ theorem ChainDir.dirSrc (C : ChainDir d f0 c0 chain) :
     have := Nat.div_add_mod d.fs.clusterSize 32
     rw [C.cs32, Nat.add_zero] at this
     rw [Nat.mul_left_comm, this]
-  refine { toByteSrc := C.byteSrc hT, seekCur := ?_, absPos := ?_, drop := ?_ }
+  refine { toByteSrc := C.core.byteSrc hT, seekCur := ?_, absPos := ?_, drop := ?_ }
   · intro d1 hv o ho
     rw [hT] at ho
     simp only [chainS, DirStream.seek]
-    exact Reads.bind (dirFile_seekCur0 C o ho d1) (fun d2 _ => Reads.pure _ d2)
+    exact Reads.bind (dirFile_seekCur0 C.core o ho d1) (fun d2 _ => Reads.pure _ d2)
   · intro d1 hv o ho32 hpos ho
     rw [hT] at ho
     have hle : o / d.fs.clusterSize ≤ chain.length := Nat.div_le_of_le_mul (by rw [Nat.mul_comm]; exact ho)
